@@ -4,12 +4,13 @@ PC currently is, while interrupts, resets and regime changes (mode, ISA, IT stat
 policy) are injected at seeded ticks.  Oracle M-host: nothing but NotImplementedError may escape."""
 from sim import gen as G, machine as M
 from sim.stream import StreamBoard
+from sim.asm import A, T
 from sim.monitors import RangeMonitor, ModeMonitor
 from sim.gen import CODE, CODE_SZ, DATA, LOW, HIGH, STACKS
 
 PROPERTY = 'C18'
 LEVEL = 'exploration'
-BUDGET_S = {'quick': 75, 'thorough': 1500}
+BUDGET_S = {'quick': 120, 'thorough': 1500}
 EXHAUSTIVE = {'quick': False, 'thorough': False}
 RULE = ("Runs are derived from (VERIF_SEED, index). Each run builds a fresh core from a seeded configuration "
         "(arch 4-7, security/virtualization ext, PMSA/VMSA, LPAE, ThumbEE/Jazelle/MP switches; MPU region sets; short-descriptor tables with pages, sections "
@@ -28,13 +29,17 @@ ASSUMPTIONS = [
 TABLES = 0x50000
 WIN = 0x00100000             # a small RAM behind the page-mapped window (VMSA configurations)
 TABLES_SZ = 0x8000
+BIG = 0x40000000            # base of the occasional large RAM
 
 
 def plan(tier, seed):
     # sweepT32: every value of hw1[15:4] of the 32-bit Thumb space (0xE80..0xFFF, 384 values) x seeded hw2 with register fields biased to 13/15;
     # sweepA32: every value of ARM bits [27:20] x [7:4] x cond in {AL, NV} with seeded register/immediate fields
+    # storm: one instance, 2^16 + 1024 consecutive steps of one kind (every step an Undefined Instruction / SVC / alignment-fault entry, or every step a retired
+    # NOP, or streaks of exactly 2^16 - 1 and 2^16 + 1 entries separated by one retired instruction): counters, thresholds and saturations inside the library
+    storms = [{'k': 'storm', 'sub': x} for x in ('und', 'svc', 'dabt', 'nop', 'mix')]
     if tier == 'quick':
-        return ([{'k': 'stream'}] * 12000 + [{'k': 'sweep16', 'slice': i, 'of': 1024, 'ctx': i % 3} for i in range(1024)] +
+        return _spread(storms, [{'k': 'stream'}] * 12000 + [{'k': 'sweep16', 'slice': i, 'of': 1024, 'ctx': i % 3} for i in range(1024)] +
                 [{'k': 'sweepT32', 'slice': i, 'rep': 256} for i in range(0, 384, 8)] + [{'k': 'sweepA32', 'slice': i, 'rep': 12} for i in range(0, 8192, 64)])
     items = [{'k': 'stream'}] * 400000
     for ctx in range(3):
@@ -42,6 +47,15 @@ def plan(tier, seed):
     for rnd in range(6):
         items += [{'k': 'sweepT32', 'slice': i, 'rep': 512} for i in range(0, 384, 8)]
         items += [{'k': 'sweepA32', 'slice': i, 'rep': 64} for i in range(0, 8192, 64)]
+    return _spread(storms * 8, items)
+
+
+def _spread(special, items):
+    """the few long items placed at even distances through the plan (the runner hands contiguous slices to its workers)"""
+    items = list(items)
+    step = len(items) // (len(special) + 1)
+    for i, it in enumerate(special):
+        items.insert((i + 1) * step + i, it)
     return items
 
 
@@ -257,6 +271,19 @@ def gen_case(item, rng, tier):
         nt = len(words)
         if rng.random() < 0.5:
             force['edge_regs'] = rng.randrange(1, 8)          # r0-r12 reloaded with range-edge operands before two ticks out of three
+    elif item['k'] == 'storm':
+        te = rng.getrandbits(1)
+        reg0['sys']['sctlr'] = G.sctlr_value(m=0, a=1, u=1, te=te, v=rng.getrandbits(1), ee=0)
+        reg0['cpsr'] &= ~(1 << 9)
+        und = (T.udf(rng.getrandbits(8)) << 16 | T.NOP) if te else A.udf(rng.getrandbits(8))
+        svc = (T.svc(rng.getrandbits(8)) << 16 | T.NOP) if te else A.svc(rng.getrandbits(24))
+        dab = (T.ldst_imm('ldr', 0, 1, 0) << 16 | T.NOP) if te else A.ldst(1, 0, 1, 0)
+        nop = (T.NOP << 16 | T.NOP) if te else A.NOP
+        n = 0x10000
+        words = {'und': [und] * (n + 1024), 'svc': [svc] * (n + 1024), 'dabt': [dab] * (n + 1024), 'nop': [nop] * (n + 1024),
+                 'mix': [rng.choice([und, svc])] * (n - 1) + [nop] + [und] * (n + 1)}[item['sub']]
+        force = {'it': 0, 'ctx': 9, 'thumb': te, 'ptr_regs': [DATA + 0x401, DATA + 0x403, DATA + 0x402]}
+        nt = len(words)
     elif item['k'] == 'sweep16':
         n = 65536 // item['of']
         lo = item['slice'] * n
@@ -270,7 +297,7 @@ def gen_case(item, rng, tier):
         words = G.stream_words(rng, nt, tb)
         force = None
     events = []
-    nev = rng.randrange(0, max(1, nt // 16)) if rng.random() > 0.25 else 0
+    nev = rng.randrange(0, max(1, nt // 16)) if rng.random() > 0.25 and item['k'] != 'storm' else 0
     for _ in range(nev):
         k = rng.random()
         t = rng.randrange(1, nt)
@@ -294,6 +321,17 @@ def gen_case(item, rng, tier):
         ov = {'kind': 'ram', 'begin': end - rng.choice([0x21, 0x30, 0x7]), 'end': end}
         G.set_data(ov, 0, bytes(rng.getrandbits(8) for _ in range(8)))
         core['devices'].insert(0, ov)
+    if item['k'] == 'stream' and rng.random() < 0.03:
+        # a large device (16-32 MiB) whose size is not a multiple of any page / block size, with pointers at its last bytes (whatever a device does
+        # to hold that much memory, its tail is where the arithmetic differs)
+        size = rng.choice([1 << 24, 1 << 24, 1 << 25, 24 << 20]) + rng.choice([1, 0x1234, 0xFFFF, 0x10001, 0xFFF, 0x8000, 0])
+        big = {'kind': 'ram', 'begin': BIG, 'end': BIG + size}
+        G.set_data(big, size - 8, bytes(rng.getrandbits(8) for _ in range(8)))
+        core['devices'].append(big)
+        for _ in range(3):
+            reg0['R'][rng.choice(['R%dusr' % rng.randrange(8), 'SPusr', 'SPsvc', 'R%dusr' % rng.randrange(13)])] = BIG + size - rng.choice([1, 2, 3, 4, 5, 8, 9, 0x10, 0x40, 0x1000, 0x10000, 0x10004])
+        if rng.random() < 0.5:
+            reg0['sys']['sctlr'] &= ~1                 # MPU / MMU off: the accesses reach the device
     return {'scenario': 'corrupt', 'kind': item['k'], 'cores': [core], 'events': events,
             'max_ticks': nt + 4, 'stop_at_done': False}
 
